@@ -1,7 +1,7 @@
 (* C16: event headers and control events decode exactly, checksum or not. *)
 From Coq Require Import ZifyBool.
 From GB Require Import Base.Prelude Base.BytesLemmas Model.Header Model.Events
-  Spec.EncHeader Spec.EncEvent Spec.Expect Spec.EventSpec Proofs.HeaderProofs.
+  Spec.EncHeader Spec.EncEvent Spec.Expect Spec.EventSpec Proofs.HeaderProofs Proofs.TableIdProofs.
 From GBGen Require Import Consts.
 Open Scope Z_scope.
 Ltac Zify.zify_post_hook ::= Z.div_mod_to_equations.
@@ -204,7 +204,7 @@ Qed.
 
 Lemma wf_cfg_inv c :
   wf_cfg c = true ->
-  19 <= c_hlen c <= 255 /\ 35 <= c_nsizes c <= 255 /\ (c_tid4 c = true -> c_v2 c = false).
+  19 <= c_hlen c <= 250 /\ 35 <= c_nsizes c <= 255 /\ (c_tid4 c = true -> c_v2 c = false).
 Proof.
   unfold wf_cfg. intros H.
   destruct (c_tid4 c), (c_v2 c); cbn [negb orb andb] in H; repeat split; try lia; auto; discriminate.
@@ -909,7 +909,8 @@ Lemma table_id_body_ok c h v id rest :
 Proof.
   intros Hc Ht Hid. pose proof (post_header_tid c (h_type h) Hc Ht) as Hp6.
   pose proof Hc as Hc'. apply wf_cfg_inv in Hc' as (Hhl & Hn & _).
-  unfold ev_table_id, enc_ev_stripped. rewrite hdr_type_raw. cbn [bind].
+  rewrite ev_table_id_lin_eq by (cbn [expect_format f_hlen]; lia).
+  unfold ev_table_id_lin, enc_ev_stripped. rewrite hdr_type_raw. cbn [bind].
   rewrite header_size_expect.
   2:{ unfold is_tid_type, rows_type in Ht. destruct (c_v2 c); lia. }
   2:{ lia. }
@@ -935,22 +936,23 @@ Qed.
 (* 5. the checksum is transparent                                      *)
 
 Lemma decode_all_core f f' c h t t' b :
-  19 <= c_hlen c -> f_hlen f = c_hlen c -> f_hlen f' = c_hlen c -> f_sizes f = f_sizes f' ->
+  19 <= c_hlen c <= 250 -> f_hlen f = c_hlen c -> f_hlen f' = c_hlen c -> f_sizes f = f_sizes f' ->
   decode_all f (enc_header_len h t ++ repeat 0 (Z.to_nat (c_hlen c - 19)) ++ b) =
   decode_all f' (enc_header_len h t' ++ repeat 0 (Z.to_nat (c_hlen c - 19)) ++ b).
 Proof.
   intros H Hf Hf' Hs. unfold decode_all.
   unfold ev_rotate, ev_query, ev_intvar, ev_rand.
-  rewrite !(body_core f c h), !(body_core f' c h) by assumption.
+  rewrite !(body_core f c h), !(body_core f' c h) by (assumption || lia).
   fold (header_view (enc_header_len h t ++ repeat 0 (Z.to_nat (c_hlen c - 19)) ++ b)).
   fold (header_view (enc_header_len h t' ++ repeat 0 (Z.to_nat (c_hlen c - 19)) ++ b)).
   rewrite !header_view_any.
   f_equal. f_equal.
-  unfold ev_table_id. rewrite !hdr_type_raw. cbn [bind].
+  rewrite !ev_table_id_lin_eq by lia.
+  unfold ev_table_id_lin. rewrite !hdr_type_raw. cbn [bind].
   unfold header_size. rewrite Hs, Hf, Hf'.
   destruct (at_ (f_sizes f') _); cbn [bind]; try reflexivity.
   rewrite !(app_assoc (enc_header_len h _)).
-  rewrite !le_at_skip0 by (apply core_prefix_length; exact H). reflexivity.
+  rewrite !le_at_skip0 by (apply core_prefix_length; lia). reflexivity.
 Qed.
 
 Lemma sizes_from_set_crc c b n : forall t, sizes_from (set_crc c b) t n = sizes_from c t n.
